@@ -1,32 +1,44 @@
 """C10 - taxon namespaces keep a stable one-to-one taxon/bit map and exact label lookups."""
 import copy as _copy
 import itertools
+import pickle
 import re
+import warnings
 
 from common import time_limit, hex6
 
 ID = "C10"
-GEN_DEPENDS = ["Tables"]
+GEN_DEPENDS = ["Tables", "C10Kernels", "C10Lower"]
 RULE = ("operation histories (<= 30 ops quick, <= 45 thorough, plus an observation burst) over the whole public alphabet of "
-        "TaxonNamespace: constructor from labels/Taxon objects, add/add_taxa/new/new_taxa/require/remove/del/remove_label/"
-        "discard_label/sort/reverse/clear/relabel/copy constructor/copy.copy/deepcopy/is_mutable/is_case_sensitive and every "
-        "lookup, bit and rendering observer; label pools with duplicates, case variants and characters that need quoting; "
+        "TaxonNamespace: constructor from labels/Taxon objects (also with is_mutable=False), add/append/add_taxa/new/new_taxa/require/"
+        "remove_taxon/remove/del/remove_label/discard_label/sort (default key and six custom keys)/reverse/clear/relabel/copy constructor "
+        "(also with keywords)/copy.copy/deepcopy/pickle/taxon_namespace_scoped_copy/is_mutable/is_case_sensitive and every lookup "
+        "(label_taxon_map included), bit and rendering observer with their keyword forms (taxa_bitmask(taxa=, labels=, first_match_only=), "
+        "bitmask_taxa_list(index=), legacy aliases); label pools with duplicates, case variants, characters that need quoting, labels beyond "
+        "Latin-1 (final sigma, dotted I, digraphs, Cyrillic, CJK: kind `wide`) and taxa without a label (kind `unlabelled`, oracle only); "
+        "the regenerated kernels against the implementation on namespaces of 0..90 taxa; "
         "thorough adds every sequence of <= 3 symbolic mutators from two base namespaces; "
         "non-trivial = the history removes, re-adds, reorders or copies (bits differ from list positions or live in two namespaces)")
 MODELLED_NOT_VERIFIED = [
-    "C10: Taxon objects are opaque ids with a string label; the model's scope is non-empty strings over ASCII and Latin-1 "
-    "(harness predicate in_scope = Lean InScope; theorems case_folding_scope / out_of_scope_lookup say what the folding is and "
-    "that it is the identity beyond; Python str.lower is differential-tested on every generated label).  Histories with "
-    "non-Latin-1 labels (final sigma, dotted I, titlecase digraphs, Cyrillic, CJK) are run on the implementation and judged by "
-    "the oracle only, never sent to the model.  None labels (a Taxon without a label has nothing to match), custom sort keys, "
-    "negative bitmasks, annotations, TaxonNamespacePartition/Mapping and label_taxon_map are outside model and check",
+    "C10: Taxon objects are opaque ids with a string label.  Labels are non-empty strings over all of Unicode; the case folding is "
+    "str.lower as tables regenerated from the running interpreter (Gen/C10Lower.lean: offset ranges, the one two-character result, the "
+    "Final_Sigma context rule) - equality with CPython is differential-tested on every generated label, proved only in the form "
+    "case_folding_latin1 (closed form on ASCII/Latin-1) and case_folding_wide (the sigma rule as stated).  Taxa WITHOUT a label "
+    "(label None) are not in the model: such histories are run on the implementation and judged by the oracle only (an unlabelled "
+    "member matches no query, keeps its bit; sort may refuse with TypeError and leave a partial order; renderings are not judged "
+    "because an unlabelled taxon has no name).  None as a QUERY label, the empty label, lone surrogates, negative bitmasks, "
+    "annotations and TaxonNamespacePartition/Mapping are outside model and check",
+    "C10: custom sort keys: the six key functions of SORT_KEYS are modelled (label, lower-cased label, length, accession index, "
+    "(length, label) tuple, constant); sort_key_perm/sorted/stable hold for ANY key function with totally pre-ordered values, but a "
+    "key the harness does not pass (or one whose comparison raises) is not compared with the implementation",
     "C10: remove_taxon_label/discard_taxon_label with first_match_only=True (ops rmlf/dlf): the current code raises TypeError "
     "before touching the namespace once a label matches, which no clause of the statement speaks about; the model has both this "
     "refusal and the documented behaviour (first match leaves; theorem remove_first_spec) and is told which one was observed",
     "C10: the comparison with the model distinguishes only ImmutableTaxonNamespaceError from other documented refusals "
     "(KeyError/IndexError/LookupError/ValueError are one class) and does not look at all_taxa_bitmask except where it is asked for",
     "C10: nexusprocessing.bitmask_as_newick_string is modelled in its repaired form (members placed by their own bit); "
-    "escape_nexus_token's character class comes from the generated table Tables.protectDefault",
+    "escape_nexus_token's character class comes from the generated table Tables.protectDefault; pickling is modelled as deepcopy "
+    "(fresh Taxon objects, same bits), label_taxon_map through a lookup of one key (last member per folded label wins)",
 ]
 EXPLANATION = ("Theorems about the state machine the driver runs, for arbitrary operation lists: the invariant (member list "
                "duplicate-free, members = keys of the index map, index < counter, the two index maps inverse of each other, memo "
@@ -34,18 +46,33 @@ EXPLANATION = ("Theorems about the state machine the driver runs, for arbitrary 
                "index_maps_coherent_reachable, memo_coherent_reachable); bits_distinct, masks_distinct, taxon_bitmask_spec, "
                "bm_acc_agree, bit_stable(+_history), mask_stable_history, counter_monotone(+_history), no_reuse, "
                "index_never_rebound (also across clear), other_namespaces_untouched; a _spec theorem for every op of the alphabet: "
-               "mk, ctor_labels/ctor_mixed, add, add_taxa, new, new_taxa, require, rm, del, remove_label, sort_perm/sorted/stable/"
-               "ops, clear, relabel, flags, copy_bits, deepcopy_bits, lookup(+ops), get_taxa(+ops), labels_mask, tbm_btl_ops, "
-               "tbm_btl_ops_exact, observers, in_op, refusals, require_idempotent; renderings: mask_roundtrip(+_exact: duplicate-free, "
-               "ascending by bit), newick_spec, newick_any_mask, nwk_op_text, bitstring_spec, "
+               "mk, ctor_labels/ctor_mixed/ctor_immutable, add, add_taxa, new, new_taxa, require, rm, del, remove_label, sort_perm/sorted/"
+               "stable/ops, clear, relabel, flags, copy_bits, copy_kw, deepcopy_bits, scoped_copy, lookup(+ops), label_map, get_taxa(+ops), "
+               "labels_mask, tbm_kw, tbm_btl_ops, tbm_btl_ops_exact, btl_index (index=k reads the mask shifted by k), observers, in_op, "
+               "refusals, require_idempotent; custom sort keys: sort_key_perm / sort_key_sorted / sort_key_stable for ANY key function "
+               "whose values are totally pre-ordered, sort_key_kinds (the six keys of the driver are such), sort_key_ops_spec, "
+               "sort_default_key (key=None is key=label), sort_const_identity, sort_acc_bit_order; renderings: mask_roundtrip(+_exact: "
+               "duplicate-free, ascending by bit), newick_spec, newick_any_mask, nwk_op_text, bitstring_spec, "
                "token_equivalence / token_injective / token_injective_no_blank (which labels can share a NEXUS token) and "
                "newick_names_exactly; text level: text_determines_tokens(+_flat) (a local tokenizer reads back the printed tokens), "
                "token_wellformed, nwk_text_names_exactly (the printed string names exactly the taxa, for non-empty labels and "
                "preserve_spaces or quote_underscores); remove_first_spec (first_match_only=True: the TypeError refusal of the "
-               "code as it is, and the documented first-match removal); scope: case_folding_scope, out_of_scope_lookup, "
-               "in_scope_match; immutable_spec(+_history). None is _partial.")
+               "code as it is, and the documented first-match removal); case folding: labelMatches_iff, case_folding_latin1 (closed "
+               "form, idempotent on ASCII/Latin-1), case_folding_wide (Final_Sigma rule), in_scope_match; immutable_spec(+_history); "
+               "tie A bridges: kernel_taxon_bitmask, kernel_all_taxa_bitmask, kernel_bitstring, kernel_btl, kernel_btl_loop, "
+               "kernel_newick (the kernels regenerated from taxonmodel.py / bitprocessing.py / nexusprocessing.py equal the model's). "
+               "None is _partial.")
 
-MUTATORS = {"rmlf", "dlf", "mkns", "add", "addtaxa", "new", "newtaxa", "req", "rm", "del", "rml", "dl", "sort", "rev", "clear", "relabel",
+SORT_KEYS = {
+    "label": lambda ns: (lambda x: x.label),
+    "lower": lambda ns: (lambda x: x.label.lower()),
+    "len": lambda ns: (lambda x: len(x.label)),
+    "acc": lambda ns: ns.accession_index,
+    "lenlabel": lambda ns: (lambda x: (len(x.label), x.label)),
+    "const": lambda ns: (lambda x: 0),
+}
+
+MUTATORS = {"sortk", "mknsimm", "copykw", "append", "remove", "pickle", "rmlf", "dlf", "mkns", "add", "addtaxa", "new", "newtaxa", "req", "rm", "del", "rml", "dl", "sort", "rev", "clear", "relabel",
             "copy", "shallow", "deep", "setmut", "setcs", "mk"}
 
 BASE_LABELS = ["a", "A", "b", "B", "ab", "Ab", "aB", "AB", "c d", "c_d", "x'y", "e(f", "g,h", "É", "é", "Z", "z", "z1",
@@ -68,6 +95,28 @@ def enc_op(op):
         return ["mk", hex6(op[1])]
     if k == "mkns":
         return ["mkns", b01(op[1])] + [("T%d" % x) if isinstance(x, int) else ("L" + hex6(x)) for x in op[2]]
+    if k in ("append", "remove", "sbits"):       # legacy / deprecated aliases: the same model op
+        return [{"append": "add", "remove": "rm", "sbits": "bits"}[k], str(op[1]), str(op[2])]
+    if k == "gtbm":
+        return ["tbm", str(op[1])] + [str(t) for t in op[2]]
+    if k == "pickle":
+        return ["deep", str(op[1])]
+    if k == "sortk":
+        return ["sortk", str(op[1]), op[2], b01(op[3])]
+    if k == "btli":
+        return ["btli", str(op[1]), str(op[2]), str(op[3])]
+    if k == "tbmkw":
+        return ["tbmkw", str(op[1]), cflag(op[2]), b01(op[3]),
+                "-" if op[4] is None else "T" + ",".join(str(t) for t in op[4]),
+                "-" if op[5] is None else "L" + ",".join(hex6(l) for l in op[5])]
+    if k == "mknsimm":
+        return ["mknsimm", b01(op[1])] + [("T%d" % x) if isinstance(x, int) else ("L" + hex6(x)) for x in op[2]]
+    if k == "copykw":
+        return ["copykw", str(op[1]), cflag(op[2]), cflag(op[3])]
+    if k == "scoped":
+        return ["scoped", str(op[1])]
+    if k == "ltm":
+        return ["ltm", str(op[1]), cflag(op[2]), hex6(op[3])]
     if k in ("add", "rm", "del", "bm", "acc", "in", "btl", "bits"):
         return [k, str(op[1]), str(op[2])]
     if k in ("addtaxa", "tbm"):
@@ -143,17 +192,19 @@ class World(object):
     def check_refs(self, op):
         k = op[0]
         ts = []
-        if k == "mkns":
+        if k in ("mkns", "mknsimm"):
             ts = [x for x in op[2] if isinstance(x, int)]
         elif k == "relabel":
             ts = [op[1]]
         elif k != "mk":
             if not (0 <= op[1] < len(self.nss)):
                 raise BadRef()
-            if k in ("add", "rm", "bm", "acc", "in"):
+            if k in ("add", "rm", "bm", "acc", "in", "append", "remove"):
                 ts = [op[2]]
-            elif k in ("addtaxa", "tbm"):
+            elif k in ("addtaxa", "tbm", "gtbm"):
                 ts = op[2]
+            elif k == "tbmkw":
+                ts = op[4] or []
         if any(not (0 <= t < len(self.taxa)) for t in ts):
             raise BadRef()
 
@@ -171,10 +222,77 @@ class World(object):
                     self.reg(t)
                 self.nss.append(ns)
                 return "n%d" % (len(self.nss) - 1), ns
+            if k == "mknsimm":
+                ns = d.TaxonNamespace([self.taxa[x] if isinstance(x, int) else x for x in op[2]], is_case_sensitive=op[1], is_mutable=False)
+                for t in ns:
+                    self.reg(t)
+                self.nss.append(ns)
+                return "n%d" % (len(self.nss) - 1), ns
             if k == "relabel":
                 self.taxa[op[1]].label = op[2]
                 return "ok", None
             ns = self.nss[op[1]]
+            if k == "append":
+                ns.append(self.taxa[op[2]])
+                return "ok", None
+            if k == "remove":
+                with warnings.catch_warnings():
+                    warnings.simplefilter("ignore")
+                    ns.remove(self.taxa[op[2]])
+                return "ok", None
+            if k == "sortk":
+                ns.sort(key=SORT_KEYS[op[2]](ns), reverse=op[3])
+                return "ok", None
+            if k == "btli":
+                r = ns.bitmask_taxa_list(op[2], index=op[3])
+                return self.ids(r), r
+            if k == "tbmkw":
+                kw = dict(self.kw(op[2]))
+                if op[3]:
+                    kw["first_match_only"] = True
+                if op[4] is not None:
+                    kw["taxa"] = [self.taxa[t] for t in op[4]]
+                if op[5] is not None:
+                    kw["labels"] = list(op[5])
+                r = ns.taxa_bitmask(**kw)
+                return "n%d" % r, r
+            if k == "gtbm":
+                r = ns.get_taxa_bitmask(taxa=[self.taxa[t] for t in op[2]])
+                return "n%d" % r, r
+            if k == "sbits":
+                with warnings.catch_warnings():
+                    warnings.simplefilter("ignore")
+                    r = ns.split_as_string(op[2])
+                return "s" + hex6(r), r
+            if k == "copykw":
+                kw = {}
+                if op[2] is not None:
+                    kw["is_case_sensitive"] = op[2]
+                if op[3] is not None:
+                    kw["is_mutable"] = op[3]
+                new = d.TaxonNamespace(ns, **kw)
+                for t in new:
+                    self.reg(t)
+                self.nss.append(new)
+                return "n%d" % (len(self.nss) - 1), new
+            if k == "pickle":
+                new = pickle.loads(pickle.dumps(ns))
+                for t in new:
+                    self.reg(t)
+                self.nss.append(new)
+                return "n%d" % (len(self.nss) - 1), new
+            if k == "scoped":
+                memo = {}
+                r = ns.taxon_namespace_scoped_copy(memo)
+                who = [j for j, x in enumerate(self.nss) if x is r]
+                return ("n%d" % who[0]) if who else "n?", (r, memo)
+            if k == "ltm":
+                m = ns.label_taxon_map(**self.kw(op[2]))
+                try:
+                    t = m[op[3]]
+                except KeyError:
+                    t = None
+                return ("None" if t is None else self.name(t)), t
             if k == "add":
                 ns.add_taxon(self.taxa[op[2]])
                 return "ok", None
@@ -417,7 +535,8 @@ class Oracle(object):
     def matches(members, cs, label):
         if cs:
             return [t for t in members if t.label == label]
-        return [t for t in members if str(t.label).lower() == str(label).lower()]
+        # a member without a label has nothing to fold: it matches no query (not even "none")
+        return [t for t in members if t.label is not None and str(t.label).lower() == str(label).lower()]
 
     def member_subset(self, snap_ns, m):
         """the members named by mask m, or None when m has a set bit that belongs to no member"""
@@ -436,6 +555,8 @@ class Oracle(object):
     def check_renderings(self, k, n, snap_ns, subset, kind_txt, nwk=None, bits=None):
         members, idx = snap_ns[0], snap_ns[1]
         inset = {id(t) for t in subset}
+        if nwk is not None and any(t.label is None for t in members):
+            nwk = None      # a taxon without a label has no name a rendering could mention
         if nwk is not None:
             p = parse_newick_groups(nwk)
             want_l = [t.label for t in members if id(t) in inset]
@@ -489,15 +610,24 @@ class Oracle(object):
         ids = {id(t) for t in members}
         ecs = (lambda c: cs if c is None else c)
         imm = w.err.ImmutableTaxonNamespaceError
-        if kind == "add":
+        if kind in ("add", "append"):
             return (imm,) if (not mut and id(w.taxa[op[2]]) not in ids) else ()
+        if kind == "copykw":
+            # is_mutable=False is in force while the members of the other namespace are added
+            return (imm,) if (op[3] is False and members) else ()
+        if kind == "tbmkw":
+            if op[4] is not None:
+                return () if all(id(w.taxa[t]) in ids for t in op[4]) else (KeyError,)
+            return () if op[5] is not None else (TypeError,)
+        if kind == "btli":
+            return () if self.member_subset(snap_ns, op[2] << op[3]) is not None else (KeyError,)
         if kind == "addtaxa":
             return (imm,) if (not mut and any(id(w.taxa[t]) not in ids for t in op[2])) else ()
         if kind in ("new", "newtaxa"):
             return () if mut else (imm,)
         if kind == "req":
             return (imm,) if (not mut and not self.matches(members, ecs(op[2]), op[3])) else ()
-        if kind == "rm":
+        if kind in ("rm", "remove"):
             return () if id(w.taxa[op[2]]) in ids else (ValueError,)
         if kind == "del":
             return () if op[2] < len(members) else (IndexError,)
@@ -505,10 +635,13 @@ class Oracle(object):
             return () if self.matches(members, ecs(op[2]), op[3]) else (LookupError,)
         if kind in ("bm", "acc"):
             return () if id(w.taxa[op[2]]) in ids else (KeyError,)
-        if kind == "tbm":
+        if kind in ("tbm", "gtbm"):
             return () if all(id(w.taxa[t]) in ids for t in op[2]) else (KeyError,)
         if kind == "btl":
             return () if self.member_subset(snap_ns, op[2]) is not None else (KeyError,)
+        if kind in ("sort", "sortk") and len(members) >= 2 and any(t.label is None for t in members) \
+                and (kind == "sort" or op[2] == "label"):
+            return (TypeError,)     # CPython cannot order None against a string: list.sort refuses (the order reached so far stays)
         if kind in ("rmlf", "dlf"):
             # FINDING (reported, outside the statement): with a match the current code raises TypeError before touching
             # the namespace; accepted here so that the check stays quiet, everything else about these calls is checked
@@ -530,6 +663,8 @@ class Oracle(object):
                 op[0], op[2:], op[1], [t.label for t in b[0]], "mutable" if b[2] else "immutable", type(raw).__name__, raw,
                 ("documented refusal here would be " + "/".join(c.__name__ for c in allowed)) if allowed
                 else "the call is in its domain and must not raise"), k)
+        elif op[0] in ("sort", "sortk") and {id(x) for x in a[0]} == {id(x) for x in b[0]} and len(a[0]) == len(b[0]):
+            pass        # a refused sort may leave the members partially reordered; who is a member (and every bit) is unchanged
         elif len(a[0]) != len(b[0]) or any(x is not y for x, y in zip(a[0], b[0])):
             self.fail("refusal", "%s was refused (%s) but changed the members of namespace %d from %s to %s" % (
                 op[0], type(raw).__name__, op[1], [t.label for t in b[0]], [t.label for t in a[0]]), k)
@@ -545,7 +680,7 @@ class Oracle(object):
         before_ids = {id(t) for t in members}
         after_ids = {id(t) for t in a[0]}
         want = None
-        if kind == "rm":
+        if kind in ("rm", "remove"):
             want = before_ids - {id(w.taxa[op[2]])}
         elif kind == "del" and op[2] < len(members):
             want = before_ids - {id(members[op[2]])}
@@ -557,15 +692,17 @@ class Oracle(object):
         elif kind == "clear":
             want = set()
         elif kind in ("sort", "rev", "setmut", "setcs", "get", "find", "gets", "has", "hasall", "bm", "acc", "tbm", "lbm",
-                      "all", "btl", "nwk", "snwk", "bits", "in", "copy", "shallow", "deep"):
+                      "all", "btl", "nwk", "snwk", "bits", "in", "copy", "shallow", "deep", "sortk", "btli", "tbmkw", "gtbm",
+                      "sbits", "copykw", "pickle", "scoped", "ltm"):
             want = before_ids
-        elif kind == "add":
+        elif kind in ("add", "append"):
             want = before_ids | {id(w.taxa[op[2]])}
         elif kind == "addtaxa":
             want = before_ids | {id(w.taxa[t]) for t in op[2]}
         elif kind == "newtaxa":
             new = [t for t in a[0] if id(t) not in before_ids]
-            if not (before_ids <= after_ids and len(new) == len(op[2]) and sorted(t.label for t in new) == sorted(op[2])
+            lkey = (lambda x: (x is None, x or ""))
+            if not (before_ids <= after_ids and len(new) == len(op[2]) and sorted((t.label for t in new), key=lkey) == sorted(op[2], key=lkey)
                     and len(raw) == len(new) and {id(t) for t in raw} == {id(t) for t in new}):
                 self.fail("members", "new_taxa(%r) on namespace %d: members %s -> %s" % (
                     op[2], op[1], [t.label for t in members], [t.label for t in a[0]]), k)
@@ -580,14 +717,15 @@ class Oracle(object):
         w = self.w
         cm = after[-1][0]
         given = {id(w.taxa[x]) for x in op[2] if isinstance(x, int)}
-        labels = sorted(x for x in op[2] if not isinstance(x, int))
+        lkey = (lambda x: (x is None, x or ""))
+        labels = sorted((x for x in op[2] if not isinstance(x, int)), key=lkey)
         new = [t for t in cm if id(t) not in given]
-        if not (given <= {id(t) for t in cm} and sorted(t.label for t in new) == labels):
+        if not (given <= {id(t) for t in cm} and sorted((t.label for t in new), key=lkey) == labels):
             self.fail("members", "TaxonNamespace(%r): members %s" % (op[2], [t.label for t in cm]), k)
 
     def after(self, k, op, ret, raw, before, after):
         w, kind = self.w, op[0]
-        n = op[1] if kind not in ("mk", "mkns", "relabel") else None
+        n = op[1] if kind not in ("mk", "mkns", "mknsimm", "relabel") else None
         # ---- (a) one-to-one and stable, in every namespace; (d) immutable namespaces never grow
         for j, (members, idx, mut, cs) in enumerate(after):
             if len({id(t) for t in members}) != len(members):
@@ -611,6 +749,11 @@ class Oracle(object):
         isexc = isinstance(raw, Exception)
         if kind == "mkns":
             self.check_ctor(k, op, raw, isexc, before, after)
+        if kind == "mknsimm":
+            # an immutable namespace cannot take a first member: only the empty iterable may be accepted
+            imm = isinstance(raw, w.err.ImmutableTaxonNamespaceError)
+            if (isexc and not (imm and op[2])) or (isexc and len(after) != len(before)):
+                self.fail("refusal", "TaxonNamespace(%r, is_mutable=False) raised %s" % (op[2], type(raw).__name__), k)
         if n is None or n >= len(before):
             if isexc and kind in ("mk", "relabel"):
                 self.fail("refusal", "%s raised %s" % (kind, type(raw).__name__), k)
@@ -634,13 +777,36 @@ class Oracle(object):
                 for u in amembers:
                     if u is not t and self.masks.get((n, id(u))) == raw:
                         self.fail("bits", "members %r and %r of namespace %d share the mask %d" % (t.label, u.label, n, raw), k)
-        elif kind == "tbm":
-            sub = [w.taxa[t] for t in op[2]]
+        elif kind in ("tbm", "gtbm") or (kind == "tbmkw" and op[4] is not None):
+            sub = [w.taxa[t] for t in (op[2] if kind != "tbmkw" else op[4])]
             if all(id(t) in aidx for t in sub):
                 if isexc:
                     self.fail("roundtrip", "taxa_bitmask(taxa=members) raised %s" % ret, k)
                 else:
                     self.roundtrip(k, n, after[n], sub, raw, "taxa_bitmask(taxa=...)")
+        elif kind == "tbmkw" and op[5] is not None:
+            per = [self.matches(members, ecs(op[2]), l) for l in op[5]]
+            chosen = {id(m[0]) for m in per if m} if op[3] else {id(t) for m in per for t in m}
+            sub = [t for t in members if id(t) in chosen]
+            if isexc:
+                self.fail("roundtrip", "taxa_bitmask(labels=%r, first_match_only=%s) raised %s" % (op[5], op[3], ret), k)
+            else:
+                self.roundtrip(k, n, after[n], sub, raw, "taxa_bitmask(labels=%r, first_match_only=%s)" % (op[5], op[3]))
+        elif kind == "btli":
+            sub = self.member_subset(after[n], op[2] << op[3])
+            if sub is not None:
+                if isexc or len(raw) != len(sub) or {id(t) for t in raw} != {id(t) for t in sub}:
+                    self.fail("roundtrip", "bitmask_taxa_list(%d, index=%d) on namespace %d (bits of members %s) returned %s" % (
+                        op[2], op[3], n, [t.label for t in sub], ret if isexc else [t.label for t in raw]), k)
+        elif kind == "scoped":
+            if isexc or raw[0] is not ns or any(raw[1].get(id(t)) is not t for t in amembers):
+                self.fail("copy", "taxon_namespace_scoped_copy of namespace %d did not return the namespace itself with every member "
+                          "mapped to itself (%s)" % (n, ret), k)
+        elif kind == "ltm":
+            want = self.matches(members, ecs(op[2]), op[3])
+            if isexc or not ((raw is None and not want) or any(raw is t for t in want)):
+                self.fail("lookup", "label_taxon_map(case=%s)[%r] on namespace %d (case-sensitive=%s, members %s) gave %s; matching members: %s" % (
+                    op[2], op[3], n, cs, [t.label for t in members], ret, [w.name(t) for t in want]), k)
         elif kind == "lbm":
             sub = [t for t in members if any(t in self.matches(members, ecs(op[2]), l) for l in op[3])]
             if isexc:
@@ -661,7 +827,7 @@ class Oracle(object):
                 else:
                     self.check_renderings(k, n, after[n], sub, "bitmask_as_newick_string(preserve_spaces=%s, quote_underscores=%s)" % (
                         op[3], op[4]), nwk=raw)
-        elif kind == "bits":
+        elif kind in ("bits", "sbits"):
             sub = self.member_subset(after[n], op[2])
             if sub is not None:
                 if isexc:
@@ -733,13 +899,15 @@ class Oracle(object):
                 self.fail("require", "new_taxon(%r) on %s namespace %d returned %s, members %s -> %s" % (
                     op[2], "mutable" if mut else "immutable", n, ret, [t.label for t in members], [t.label for t in amembers]), k)
         # ---- (e) copies
-        elif kind in ("copy", "shallow", "deep"):
-            if isexc or len(after) != len(before) + 1:
+        elif kind in ("copy", "shallow", "deep", "copykw", "pickle"):
+            if kind == "copykw" and isexc and self.refusals(op, before[n]):
+                pass        # judged by check_refusal
+            elif isexc or len(after) != len(before) + 1:
                 self.fail("copy", "%s of namespace %d raised %s" % (kind, n, ret), k)
             else:
                 cm, cidx = after[-1][0], after[-1][1]
                 good = len(cm) == len(members)
-                if good and kind != "deep":
+                if good and kind not in ("deep", "pickle"):
                     good = all(x is y for x, y in zip(cm, members)) and all(cidx[id(t)] == idx[id(t)] for t in members)
                 elif good:
                     good = (all(x is not y and x.label == y.label and cidx[id(x)] == idx[id(y)] for x, y in zip(cm, members))
@@ -751,17 +919,21 @@ class Oracle(object):
 
 # ---------------------------------------------------------------- one history: implementation, oracle, model
 def in_scope(l):
-    """the labels the model speaks about: non-empty strings of ASCII / Latin-1 characters (no None label, no character whose
-    case folding the model does not have - theorem case_folding_scope)"""
-    return isinstance(l, str) and l != "" and all(ord(c) < 256 for c in l)
+    """the labels the model speaks about: non-empty strings over all of Unicode (no None label; lone surrogates cannot be
+    written in the line protocol)"""
+    return isinstance(l, str) and l != "" and not any(0xD800 <= ord(c) <= 0xDFFF for c in l)
 
 
 def op_labels(op):
     k = op[0]
     if k == "mk":
         return [op[1]]
-    if k == "mkns":
+    if k in ("mkns", "mknsimm"):
         return [x for x in op[2] if not isinstance(x, int)]
+    if k == "tbmkw":
+        return list(op[5] or [])
+    if k == "ltm":
+        return [op[3]]
     if k in ("new", "relabel"):
         return [op[2]]
     if k in ("newtaxa",):
@@ -808,13 +980,16 @@ def run_history(ctx, dendropy, opgen, pending, fixed_ops=None, kind="random", co
             if not fixed:
                 ctx.count("first_match_only raises TypeError (side finding, state unchanged)")
                 ret = "TypeError"
+        if op[0] == "tbmkw" and op[4] is None and op[5] is None and isinstance(raw, TypeError) \
+                and not isinstance(raw, w.err.ImmutableTaxonNamespaceError):
+            ret = "TypeError"       # neither taxa= nor labels=: get_taxa() refuses the call
         mops.append(mop)
         outs.append(ret + " # " + w.dump())
         orc.after(k, op, ret, raw, before, after)
         k += 1
     report(ctx, dendropy, ops, orc, shrink=fixed_ops is None)
     kinds = {o[0] for o in ops}
-    nontrivial = bool(kinds & {"rm", "del", "rml", "dl", "clear", "sort", "rev", "copy", "shallow", "deep"})
+    nontrivial = bool(kinds & {"rm", "del", "rml", "dl", "clear", "sort", "rev", "copy", "shallow", "deep", "remove", "sortk", "copykw", "pickle"})
     ctx.case([enc_op(o) for o in ops], nontrivial, sample={"ops": ops[:12], "n_ops": len(ops)}, kind=kind)
     for o in ops:
         ctx.count("op:" + o[0])
@@ -826,7 +1001,7 @@ def run_history(ctx, dendropy, opgen, pending, fixed_ops=None, kind="random", co
     if compare:
         pending.append((hist_line(mops), ops, outs))
     else:
-        ctx.count("histories with labels outside the model's scope: implementation + oracle only")
+        ctx.count("histories with a label outside the model's scope (None, empty, surrogate): implementation + oracle only")
     return orc
 
 
@@ -960,13 +1135,15 @@ def member_mask(rng, ns):
     return m
 
 
-WIDE_LABELS = ["Σ", "σ", "ς", "ΑΣ", "ας", "İ", "i̇", "I", "ı", "ǅ", "ǆ", "Ω", "ω", "Я", "я", "中", "ẞ", "ß", "Éa", "éa",
+WIDE_ALPHA = "ΣσςΑαaA İIıi̇'.:­ͅǅǆЯя中ẞßΩωʰᴬ1 _"
+WIDE_LABELS = ["ΑΣ'", "αΣ.α", "aΣ", "Σa", "A.Σ", "1Σ", "ΑΣͅ", "Σ", "σ", "ς", "ΑΣ", "ας", "İ", "i̇", "I", "ı", "ǅ", "ǆ", "Ω", "ω", "Я", "я", "中", "ẞ", "ß", "Éa", "éa",
                "Ω b", "ω_b"]
 
 
 class RandomGen(object):
-    def __init__(self, rng, max_ops, wide=False):
+    def __init__(self, rng, max_ops, wide=False, nolabel=False):
         self.rng = rng
+        self.nolabel = nolabel
         self.n_ops = rng.randint(3, max_ops)
         if wide:
             pool = [rng.choice(WIDE_LABELS) for _ in range(rng.randint(2, 6))] + [rand_label(rng)]
@@ -974,6 +1151,8 @@ class RandomGen(object):
             pool = [rand_label(rng) for _ in range(rng.randint(2, 6))]
         self.wide = wide
         pool += [case_variant(rng, l) for l in pool if rng.random() < 0.6]
+        if nolabel:
+            pool += ["none", "None", "NONE"][:rng.randint(1, 3)]
         self.pool = pool
         self.burst = None
         self.follow = []
@@ -1084,6 +1263,66 @@ class RandomGen(object):
             return ["setmut", n, rng.random() < 0.5]
         return ["setcs", n, rng.random() < 0.5]
 
+    def variant(self, w, op):
+        """keyword forms, legacy aliases and further entry points of the same mechanisms (extension round)"""
+        rng, k = self.rng, op[0]
+        r = rng.random()
+        if k == "add" and r < 0.15:
+            return ["append", op[1], op[2]]
+        if k == "rm" and r < 0.10:
+            return ["remove", op[1], op[2]]
+        if k == "bits" and r < 0.15:
+            return ["sbits", op[1], op[2]]
+        if k == "tbm":
+            if r < 0.12:
+                return ["gtbm", op[1], op[2]]
+            if r < 0.35:      # taxa= wins over labels=; the other keywords are ignored
+                return ["tbmkw", op[1], self.cflag(), rng.random() < 0.3, op[2],
+                        [self.label() for _ in range(rng.randint(0, 2))] if rng.random() < 0.5 else None]
+        if k == "lbm" and r < 0.45:
+            return ["tbmkw", op[1], op[2], rng.random() < 0.5, None, op[3]]
+        if k == "btl" and r < 0.4:
+            sh = rng.randint(0, 3)
+            return ["btli", op[1], op[2] >> sh, sh]
+        if k == "sort" and r < 0.55:
+            return ["sortk", op[1], rng.choice(sorted(SORT_KEYS)), op[2]]
+        if k in ("copy", "shallow", "deep"):
+            if r < 0.25:
+                return ["copykw", op[1], self.cflag(), rng.choice([None, None, True, False])]
+            if r < 0.40:
+                return ["pickle", op[1]]
+        if k in ("get", "find") and r < 0.25:
+            return ["ltm", op[1], op[2], op[3]]
+        if k == "all" and r < 0.3:
+            return ["scoped", op[1]]
+        if k == "has" and r < 0.1:
+            return ["tbmkw", op[1], self.cflag(), False, None, None]
+        if k == "mk" and r < 0.25 and len(w.nss) < 4:
+            items = [self.label() for _ in range(rng.choice([0, 0, 1, 2]))]
+            if w.taxa and rng.random() < 0.3:
+                items.append(rng.randrange(len(w.taxa)))
+            return ["mknsimm", rng.random() < 0.5, items]
+        return op
+
+    def unlabel(self, w, op):
+        """histories with `Taxon` objects that have no label (label None): creation, relabelling to and from None; queries stay
+        strings ("none" among them: an unlabelled member must not match it).  Entry points that need a label of every member
+        (custom sort keys reading it, label_taxon_map) are left out."""
+        rng, k = self.rng, op[0]
+        if k in ("mk", "new") and rng.random() < 0.35:
+            return [k, None] if k == "mk" else [k, op[1], None]
+        if k == "relabel" and rng.random() < 0.35:
+            return [k, op[1], None]
+        if k == "newtaxa" and rng.random() < 0.3:
+            return [k, op[1], [None if rng.random() < 0.5 else l for l in op[2]]]
+        if k == "mkns" and rng.random() < 0.5:
+            return [k, op[1], [None if (not isinstance(x, int) and rng.random() < 0.3) else x for x in op[2]]]
+        if k == "sortk" and op[2] not in ("label", "acc", "const"):
+            return ["sort", op[1], op[3]]
+        if k == "ltm":
+            return ["find", op[1], op[2], op[3]]
+        return op
+
     def make_burst(self, w):
         rng = self.rng
         ops = []
@@ -1101,6 +1340,10 @@ class RandomGen(object):
         return ops
 
     def __call__(self, w, k):
+        op = self.next_op(w, k)
+        return self.unlabel(w, op) if (self.nolabel and op is not None) else op
+
+    def next_op(self, w, k):
         rng = self.rng
         if k == 0:
             items = [self.label() for _ in range(rng.choice([0, 1, 2, 3, 4, 4, 5, 6, 8]))]
@@ -1128,17 +1371,25 @@ class RandomGen(object):
                     return ["bm", fn, w.tid[id(rng.choice(members))]]
                 elif what == "all":
                     return ["all", fn]
+                elif what == "dead":
+                    # the bit of the taxon that has just left: bitmask_taxa_list must not find anybody there (index -> taxon map)
+                    return ["btl", fn, ft] if rng.random() < 0.7 else ["btli", fn, 1, ft.bit_length() - 1]
             n = rng.randrange(len(w.nss))
             if rng.random() < 0.55:
                 op = self.mutator(w, n)
+                dead = None
+                if op[0] == "rm" and any(t is w.taxa[op[2]] for t in w.nss[n]):
+                    dead = 1 << w.nss[n].accession_index(w.taxa[op[2]])
                 if op[0] == "req" and rng.random() < 0.3:
                     self.follow = [("again", n, list(op))]      # requiring the same label twice creates at most one taxon
                 elif op[0] in ("add", "new", "req") and rng.random() < 0.6:
                     self.follow = [("bm", n, op[2] if op[0] == "add" else None)]
                 elif op[0] in ("rm", "del", "rml", "dl", "clear") and rng.random() < 0.6:
                     self.follow = [("btl", n, None), ("bmany", n, None), ("all", n, None)][:rng.randint(1, 3)]
-                return op
-            return self.observer(w, n)
+                    if dead is not None and rng.random() < 0.5:
+                        self.follow.insert(0, ("dead", n, dead))
+                return self.variant(w, op)
+            return self.variant(w, self.observer(w, n))
         if self.burst is None:
             self.burst = self.make_burst(w)
         j = k - self.n_ops
@@ -1169,7 +1420,8 @@ def resolve(sym, w, removed):
 SYMBOLS = [("new", 0, "a"), ("new", 0, "B"), ("req", 0, None, "A"), ("req", 0, True, "A"), ("req", 0, None, "c"),
            ("rm_pos", 0), ("rm_pos", 1), ("rm_pos", -1), ("readd",), ("rml", 0, None, "a"), ("dl", 0, True, "b"),
            ("sort", 0, False), ("sort", 0, True), ("rev", 0), ("clear", 0), ("relabel_pos", 0, "b"), ("relabel_pos", -1, "A"),
-           ("copy", 0), ("deep", 0), ("setmut", 0, False), ("setcs", 0, True), ("del", 0, 1), ("dlf", 0, None, "a")]
+           ("copy", 0), ("deep", 0), ("setmut", 0, False), ("setcs", 0, True), ("del", 0, 1), ("dlf", 0, None, "a"),
+           ("sortk", 0, "acc", True), ("copykw", 0, True, None)]
 BASES = [["b", "a", "A", "c"], ["x", "B", "b"]]
 
 
@@ -1202,6 +1454,8 @@ class SymbolicGen(object):
                 self.burst.append(["get", n, True, "A"])
                 self.burst.append(["gets", n, None, False, ["B", "a"]])
                 self.burst.append(["lbm", n, None, ["a", "b"]])
+                self.burst.append(["tbmkw", n, None, True, None, ["A", "b"]])
+                self.burst.append(["ltm", n, None, "a"])
                 if members:
                     self.burst.append(["bits", n, 1 << ns.accession_index(members[-1])])
                     self.burst.append(["btl", n, 1 << ns.accession_index(members[0])])
@@ -1213,8 +1467,12 @@ class SymbolicGen(object):
 def string_functions(ctx, dendropy, rng, count):
     """the two pure string functions of the model against CPython / the implementation"""
     from dendropy.dataio import nexusprocessing
-    labels = list(BASE_LABELS) + [case_variant(rng, l) for l in BASE_LABELS]
+    labels = list(BASE_LABELS) + [case_variant(rng, l) for l in BASE_LABELS] + list(WIDE_LABELS)
     labels += ["".join(rng.choice(ALPHA) for _ in range(rng.randint(1, 6))) for _ in range(count)]
+    labels += ["".join(rng.choice(WIDE_ALPHA) for _ in range(rng.randint(1, 6))) for _ in range(count)]
+    labels += [chr(rng.choice([rng.randrange(0x20, 0x250), rng.randrange(0x370, 0x530), rng.randrange(0x1E00, 0x2000),
+                                rng.randrange(0x10400, 0x10450), rng.randrange(0x20, 0x30000)])) for _ in range(count)]
+    labels = [l for l in labels if in_scope(l)]
     lines, want = [], []
     for l in labels:
         lines.append("lower " + hex6(l))
@@ -1232,12 +1490,166 @@ def string_functions(ctx, dendropy, rng, count):
     ctx.count("string_function_cases", len(lines))
 
 
+# ---------------------------------------------------------------- tie A: the regenerated kernels against the implementation
+def kernel_check(dendropy, line, answer):
+    """is `answer` (the driver's evaluation of a kernel of Gen/C10Kernels.lean) what the implementation computes, through its
+    public API, on a namespace without removals (accession index = position)?  returns (ok, what the implementation says)"""
+    from common import unhex6
+    ws = line.split()
+    answer = answer.strip()
+    if ws[0] == "kfmt":
+        ns = dendropy.TaxonNamespace(["a", "b", "c"])
+        flat, sides = ns.bitmask_as_newick_string(0), ns.bitmask_as_newick_string(3)
+        parts = (unhex6(answer) or "").split("|")
+        got = None
+        if len(parts) == 7:
+            got = (parts[0] + parts[1].join(["a", "b", "c"]) + parts[2], parts[3] + parts[4].join(["a", "b"]) + parts[5] + parts[4].join(["c"]) + parts[6])
+        return got == (flat, sides), repr((flat, sides))
+    if ws[0] == "kall":
+        ns = dendropy.TaxonNamespace(["t%d" % i for i in range(int(ws[1]))])
+        want = str(ns.all_taxa_bitmask())
+    elif ws[0] == "ktb":
+        i = int(ws[1])
+        ns = dendropy.TaxonNamespace(["t%d" % j for j in range(i + 1)])
+        want = str(ns.taxon_bitmask(ns[i]))
+    elif ws[0] == "kbits":
+        ns = dendropy.TaxonNamespace(["t%d" % i for i in range(int(ws[2]))])
+        want = hex6(ns.bitmask_as_bitstring(int(ws[1])))
+    elif ws[0] == "kbtlrun":
+        m = int(ws[1])
+        ns = dendropy.TaxonNamespace(["t%d" % i for i in range(m.bit_length())])
+        want = ",".join(str(ns.accession_index(t)) for t in ns.bitmask_taxa_list(m))
+    elif ws[0] == "knwk":
+        split, allm, bm = int(ws[1]), int(ws[2]), int(ws[3])
+        c, i = allm.bit_length(), bm.bit_length() - 1
+        ns = dendropy.TaxonNamespace(["t%d" % j for j in range(c)])
+        p = parse_newick_groups(ns.bitmask_as_newick_string(split))
+        if p is None:
+            return False, "unparsable rendering"
+        if p[0] == "flat":
+            return answer.startswith("true "), "true *"
+        want = "false " + ("true" if ("b", "t%d" % i) in p[1] else "false")
+    else:
+        raise ValueError("unknown kernel line %r" % line)
+    return answer == want, want
+
+
+def optional_label_functions(ctx, dendropy, rng, count):
+    """the comparison kernel of _lookup_label and the token of escape_nexus_token on optional labels (label None), against the
+    implementation: a one-member namespace whose member has the label `tl`, asked has_taxon_label(q)"""
+    from dendropy.dataio import nexusprocessing
+    pool = [None, None, "none", "None", "NONE", "nOne", "non", "", "a", "A"] + list(WIDE_LABELS[:8]) + list(BASE_LABELS[:10])
+    lines, want = [], []
+    for _ in range(count):
+        cs, q, tl = rng.random() < 0.5, rng.choice(pool), rng.choice(pool)
+        ns = dendropy.TaxonNamespace(is_case_sensitive=cs)
+        ns.add_taxon(dendropy.Taxon(label=tl))
+        lines.append("matcho %s %s %s" % (b01(cs), hex6(q), hex6(tl)))
+        want.append(str(bool(ns.has_taxon_label(q))))
+        ps, qu = rng.random() < 0.5, rng.random() < 0.5
+        lines.append("esco %s %s %s" % (b01(ps), b01(qu), hex6(tl)))
+        want.append(hex6(nexusprocessing.escape_nexus_token(tl, preserve_spaces=ps, quote_underscores=qu)))
+    res = ctx.ask(lines)
+    for line, a, m in zip(lines, want, res):
+        if m is None:
+            continue
+        ctx.compared()
+        if a != m.strip():
+            ctx.disagree(line.split()[0], {"line": line}, a, m)
+    ctx.count("optional_label_kernel_cases (label None on either side)", len(lines))
+
+
+def kernel_functions(ctx, dendropy, rng, count):
+    lines = ["kfmt"]
+    sizes = [0, 1, 2, 3, 5, 8, 31, 32, 33, 63, 64, 65] + [rng.randint(0, 90) for _ in range(count)]
+    for c in sizes:
+        lines.append("kall %d" % c)
+        for _ in range(3):
+            lines.append("kbits %d %d" % (rng.randrange(0, 1 << (c + rng.choice([0, 0, 1, 3]))), c))
+        if c:
+            lines.append("ktb %d" % rng.randrange(c))
+            lines.append("ktb %d" % (c - 1))
+            lines.append("kbtlrun %d" % rng.randrange(0, 1 << c))
+        if 1 <= c <= 12:
+            allm = (1 << c) - 1
+            for split in {0, allm, rng.randrange(0, allm + 1), rng.randrange(0, allm + 1), 1 << rng.randrange(c)}:
+                lines.append("knwk %d %d %d" % (split, allm, 1 << rng.randrange(c)))
+    res = ctx.ask(lines)
+    for line, m in zip(lines, res):
+        if m is None:
+            continue
+        ctx.compared()
+        ok, want = kernel_check(dendropy, line, m)
+        if not ok:
+            ctx.disagree("kernel:" + line.split()[0], {"line": line}, want, m)
+    ctx.count("kernel_cases (Gen/C10Kernels.lean against the implementation)", len(lines))
+
+
+class BitsGen(object):
+    """targeted search when an obligation broke (kernel no longer extractable, bridge theorem broken): namespaces with
+    removals, re-additions and reorderings, then every bit-level observer on every member and on many masks"""
+
+    def __init__(self, rng):
+        self.rng = rng
+        self.plan = None
+        self.pre = rng.randint(2, 9)
+
+    def __call__(self, w, k):
+        rng = self.rng
+        if k == 0:
+            return ["mkns", rng.random() < 0.3, [rng.choice(BASE_LABELS) for _ in range(rng.randint(2, 9))]]
+        ns = w.nss[0]
+        members = list(ns)
+        if k <= self.pre:
+            r = rng.random()
+            if members and r < 0.45:
+                return ["rm", 0, w.tid[id(rng.choice(members))]]
+            if r < 0.6 and w.taxa:
+                return ["add", 0, rng.randrange(len(w.taxa))]
+            if r < 0.75:
+                return ["new", 0, rng.choice(BASE_LABELS)]
+            if r < 0.85:
+                return ["sortk", 0, rng.choice(sorted(SORT_KEYS)), rng.random() < 0.5]
+            if r < 0.92:
+                return ["rev", 0]
+            return ["clear", 0] if r < 0.94 else ["del", 0, 0]
+        if self.plan is None:
+            plan = []
+            for t in members:
+                tid = w.tid[id(t)]
+                m = 1 << ns.accession_index(t)
+                plan += [["bm", 0, tid], ["acc", 0, tid], ["nwk", 0, m, False, True], ["btl", 0, m], ["bits", 0, m], ["tbm", 0, [tid]]]
+            for _ in range(6):
+                m = member_mask(rng, ns)
+                sh = rng.randint(0, 3)
+                plan += [["nwk", 0, m, rng.random() < 0.5, rng.random() < 0.5], ["btli", 0, m >> sh, sh], ["bits", 0, m], ["snwk", 0, m, False, True],
+                         ["tbm", 0, [w.tid[id(t)] for t in members if rng.random() < 0.5]]]
+            plan += [["all", 0], ["copy", 0], ["deep", 0]]
+            self.plan, self.at = plan, k
+        j = k - self.at
+        return self.plan[j] if j < len(self.plan) else None
+
+
+def search(ctx, broken):
+    """an obligation broke or the model disagreed: look for an input on which the real code contradicts the statement"""
+    dendropy = __import__("dendropy")
+    pending = []
+    n = ctx.pick(600, 4000)
+    for _ in range(n):
+        if ctx.failures:
+            break
+        run_history(ctx, dendropy, BitsGen(ctx.rng), pending, kind="search", compare=False)
+    ctx.count("targeted search histories after a broken obligation / disagreement", n)
+
+
 def run(ctx):
     dendropy = __import__("dendropy")
     rng = ctx.rng
     ctx.set_budget(20, 600)
     pending = []
     string_functions(ctx, dendropy, rng, ctx.pick(300, 3000))
+    kernel_functions(ctx, dendropy, rng, ctx.pick(20, 200))
+    optional_label_functions(ctx, dendropy, rng, ctx.pick(300, 3000))
     n_hist = ctx.pick(5000, 40000)
     max_ops = ctx.pick(30, 45)
     if ctx.tier == "thorough":
@@ -1252,9 +1664,14 @@ def run(ctx):
         flush(ctx, pending)
         ctx.extra["exhaustive_small_scope"] = ("all %d sequences of <= 3 of %d symbolic mutators from %d base namespaces, each followed by "
                                                "the full observation burst" % (count, len(SYMBOLS), len(BASES)))
-    # labels outside the model's scope (non-Latin-1 case folding): implementation and oracle only
+    # taxa without a label (label None) are outside the model: implementation and oracle only
     for _ in range(ctx.pick(300, 3000)):
-        run_history(ctx, dendropy, RandomGen(rng, 20, wide=True), pending, kind="oracle-only", compare=False)
+        run_history(ctx, dendropy, RandomGen(rng, 20, wide=rng.random() < 0.3, nolabel=True), pending, kind="unlabelled", compare=None)
+    # labels beyond Latin-1 (final sigma, dotted I, titlecase digraphs, Cyrillic, CJK, combining marks): compared with the model too
+    for _ in range(ctx.pick(400, 4000)):
+        run_history(ctx, dendropy, RandomGen(rng, 20, wide=True), pending, kind="wide")
+        if len(pending) >= 200:
+            flush(ctx, pending)
     for _ in range(n_hist):
         if ctx.out_of_time():
             break
@@ -1276,6 +1693,27 @@ def replay(ctx, rec):
         from dendropy.dataio import nexusprocessing
         ws = c["line"].split()
         from common import unhex6
+        if ws[0] in ("matcho", "esco"):
+            if ws[0] == "matcho":
+                ns = dendropy.TaxonNamespace(is_case_sensitive=ws[1] == "1")
+                ns.add_taxon(dendropy.Taxon(label=unhex6(ws[3])))
+                want = str(bool(ns.has_taxon_label(unhex6(ws[2]))))
+            else:
+                want = hex6(nexusprocessing.escape_nexus_token(unhex6(ws[3]), preserve_spaces=ws[1] == "1", quote_underscores=ws[2] == "1"))
+            got = ctx.ask([c["line"]])[0]
+            if got is not None:
+                ctx.compared()
+                if got.strip() != want:
+                    ctx.disagree(ws[0], {"line": c["line"]}, want, got)
+            return
+        if ws[0].startswith("k"):
+            got = ctx.ask([c["line"]])[0]
+            if got is not None:
+                ctx.compared()
+                ok, want = kernel_check(dendropy, c["line"], got)
+                if not ok:
+                    ctx.disagree("kernel:" + ws[0], {"line": c["line"]}, want, got)
+            return
         if ws[0] == "lower":
             want = hex6(unhex6(ws[1]).lower())
         else:
